@@ -169,7 +169,7 @@ func init() {
 		// scripted histories, longer than the enumerated ones: V is a finished read (it lets the read
 		// watermark, which is what compactions discard below, reach the latest commit)
 		for _, nvk := range []int{1, 100} {
-			for _, sc := range []string{"Sa,K,Da,V,F,C", "Sa,F,C,K,Da,V,F,C", "Sa,K,Pa,V,F,C", "Sa,Sb,K,Da,Sb,V,F,C,K,Sb"} {
+			for _, sc := range []string{"Sa,K,Da,V,F,C", "Sa,F,C,K,Da,V,F,C", "Sa,K,Pa,V,F,C", "Sa,Sb,K,Da,Sb,V,F,C,K,Sb", "Sa,F,C,Sb,F,C,K,Sb,F,C", "Sa,F,C,Sb,F,C,K,Sb,F,C,K,Sa,F,C"} {
 				nvk, s := nvk, strings.Split(sc, ",")
 				e.do(fmt.Sprintf("nvk%d/%s", nvk, sc), func() (string, string) { return c24Run(e, nvk, s) })
 			}
